@@ -10,6 +10,10 @@ CHECKS = {
    "TLA+ contract monitor (StreamsContract) + implementation-shaped model (StreamsImpl) checked exhaustively by TLC; every run of the real wrappers over enumerated source scripts recorded and validated by TLC against the contract",
    "TLC explores every legal io.Reader script x buffer size x consumption path of an implementation-shaped model for small bounds and shows it never breaks the contract monitor; the same monitor then judges recorded executions of the real code over an exhaustive enumeration of chunkings/styles (N<=5 quick, N<=16 thorough) - the verdict comes from the real executions",
    "trusted: TLC, the harness's scripted sources obey the io.Reader contract, byte comparison done in Go (the spec sees ok/not ok)", "DESIGN.md#c16"),
+ "C18": ("fault_enumeration",
+   "TLA+ model of Write's filesystem steps with a Crash action (DirImpl) checked exhaustively by TLC against the contract monitor (DirContract); the real Write is run on a real directory with a crash injected at every step point of every Write of enumerated sequences, every filesystem projection judged by TLC against the same monitor",
+   "every crash point (between any two filesystem operations, one crash exhaustively, two crashes sampled/exhaustive in thorough) of every sequence of 1-3 (4) Writes over 5 file sets is executed on the real code and real filesystem; the reader's view is projected at every step and judged by the TLA+ monitor; TLC separately explores the model of the steps exhaustively (15M states thorough)",
+   "a crash is modelled as a panic out of Write at a verif step point (state on disk is what the completed syscalls left; no power-loss/unsynced-data semantics); trusted: TLC, the projection function in the harness", "DESIGN.md#c18"),
 }
 
 def hook_commits():
